@@ -23,6 +23,7 @@ import (
 	"github.com/cosmos/cosmos-sdk/simapp"
 	sdk "github.com/cosmos/cosmos-sdk/types"
 	authtypes "github.com/cosmos/cosmos-sdk/x/auth/types"
+	authvesting "github.com/cosmos/cosmos-sdk/x/auth/vesting/types"
 	banktypes "github.com/cosmos/cosmos-sdk/x/bank/types"
 	govv1 "github.com/cosmos/cosmos-sdk/x/gov/types/v1"
 	stakingtypes "github.com/cosmos/cosmos-sdk/x/staking/types"
@@ -403,4 +404,30 @@ func FundAccount(a *c4eapp.App, ctx sdk.Context, addr sdk.AccAddress, coins sdk.
 	if err := a.BankKeeper.SendCoinsFromModuleToAccount(c, mintertypes.ModuleName, addr, coins); err != nil {
 		panic(err)
 	}
+}
+
+// LockedVestingAddr is the address of a continuous vesting account present in the base world
+// whose whole balance is locked until T0+10y (a source that naturally "cannot send").
+func LockedVestingAddr() sdk.AccAddress { return FreshAddr(200) }
+
+var LockedVestingAmount = sdk.NewInt(5_000_000_000)
+
+// BaseSpec is the genesis of the per-process base world.
+func BaseSpec() GenesisSpec {
+	addr := LockedVestingAddr()
+	ov := sdk.NewCoins(sdk.NewCoin(Denom, LockedVestingAmount))
+	bva := authvesting.NewBaseVestingAccount(authtypes.NewBaseAccountWithAddress(addr), ov, T0.Add(10*365*24*time.Hour).Unix())
+	cva := authvesting.NewContinuousVestingAccountRaw(bva, T0.Unix())
+	return GenesisSpec{
+		ExtraAccounts: []authtypes.GenesisAccount{cva},
+		ExtraBalances: []banktypes.Balance{{Address: addr.String(), Coins: ov}},
+	}
+}
+
+func mustAddr(bech string) sdk.AccAddress {
+	a, err := sdk.AccAddressFromBech32(bech)
+	if err != nil {
+		panic(err)
+	}
+	return a
 }
